@@ -68,6 +68,9 @@ def find_headers(repo, build):
     if build:
         cands += [os.path.join(build, "asan"), build]
     cands += [os.path.join(repo, "_build")]
+    # the generated headers (cppcms/config.h, booster/build_config.h) do not depend on the sources under
+    # test: fall back on the framework's default build tree (a private VERIF_BUILD may not exist yet)
+    cands += [os.path.join(os.path.dirname(os.path.dirname(os.path.abspath(__file__))), ".build", "asan"), "/repo/_build"]
     for c in cands:
         if os.path.exists(os.path.join(c, "booster", "booster", "build_config.h")) and os.path.exists(os.path.join(c, "cppcms", "config.h")):
             return [c, os.path.join(c, "booster")]
